@@ -563,3 +563,357 @@ Section Inv.
     - (* ONoRun *) discriminate.
   Qed.
 End Inv.
+
+(* ================= the reserved spellings ================= *)
+From Coq Require Import DecimalPos.
+
+Lemma z_string_roundtrip : forall n : nat, z_of_string (nat_to_string n) = Some (Z.of_nat n).
+Proof.
+  intros n. unfold nat_to_string, z_to_string, z_of_string.
+  rewrite NilZero.isi.
+  - rewrite DecimalZ.of_to. reflexivity.
+  - destruct (Z.of_nat n) as [|p|p]; cbn [Z.to_int]; try discriminate.
+    intros E. inversion E as [E']. exact (Unsigned.to_uint_nonnil p E').
+  - destruct (Z.of_nat n) as [|p|p] eqn:Z; cbn [Z.to_int]; try discriminate. lia.
+Qed.
+
+Lemma nat_to_string_inj : forall a b, nat_to_string a = nat_to_string b -> a = b.
+Proof.
+  intros a b E. pose proof (z_string_roundtrip a) as A. rewrite E, z_string_roundtrip in A.
+  inversion A. lia.
+Qed.
+
+Lemma uint_digits : forall d, all_digits (NilEmpty.string_of_uint d) = true.
+Proof. induction d; cbn [NilEmpty.string_of_uint all_digits]; try reflexivity; exact IHd. Qed.
+
+Lemma nat_string_digits : forall n, all_digits (nat_to_string n) = true.
+Proof.
+  intros n. unfold nat_to_string, z_to_string.
+  destruct (Z.of_nat n) as [|p|p] eqn:Z; try lia; cbn [Z.to_int NilZero.string_of_int].
+  - reflexivity.
+  - unfold NilZero.string_of_uint. destruct (Pos.to_uint p); try reflexivity; apply uint_digits.
+Qed.
+
+Lemma var_name_reserved : forall j, is_reserved (var_name j) = true.
+Proof. intros j. unfold is_reserved, var_name. cbn. apply nat_string_digits. Qed.
+Lemma result_name_reserved : forall i, is_reserved (result_name i) = true.
+Proof. intros i. unfold is_reserved, result_name. cbn. apply nat_string_digits. Qed.
+Lemma var_name_inj : forall a b, var_name a = var_name b -> a = b.
+Proof. intros a b E. unfold var_name in E. cbn in E. inversion E. apply nat_to_string_inj. assumption. Qed.
+Lemma result_name_inj : forall a b, result_name a = result_name b -> a = b.
+Proof. intros a b E. unfold result_name in E. cbn in E. inversion E. apply nat_to_string_inj. assumption. Qed.
+Lemma var_not_result : forall a b, var_name a <> result_name b.
+Proof. intros a b E. unfold var_name, result_name in E. cbn in E. discriminate. Qed.
+
+(* ================= running a whole program / a whole stack ================= *)
+Definition pc_of (p : list op) : string -> bool :=
+  if existsb is_stack_global p then unres else fun _ => true.
+
+Lemma run_from_inv : forall pc lo p s s1,
+  inv pc lo s ->
+  Forall (fun o => op_globals_free o = true /\
+                   (forall x, o = OConst (CStr x) -> pc x = true) /\
+                   (o = OStackGlobal -> forall x, pc x = true -> unres x = true)) p ->
+  run_from p s = Ok s1 -> inv pc lo s1.
+Proof.
+  intros pc lo p. induction p as [|o p IH]; intros s s1 I F H; cbn [run_from] in H.
+  - inversion H; subst. assumption.
+  - destruct (stopped s); [inversion H; subst; assumption|].
+    destruct (step o s) as [s2|e] eqn:S; cbn [bind] in H; [|discriminate].
+    inversion F as [|? ? (G & HC & HS) F']; subst.
+    apply (IH s2 s1); try assumption. eapply step_inv; eassumption.
+Qed.
+
+Lemma fk_init_inv : forall pc lo, inv pc lo (fk_init lo).
+Proof. intros pc lo. constructor; cbn; auto. Qed.
+
+Lemma reserved_free_ops : forall p, reserved_free p = true ->
+  Forall (fun o => op_globals_free o = true /\
+                   (forall x, o = OConst (CStr x) -> pc_of p x = true) /\
+                   (o = OStackGlobal -> forall x, pc_of p x = true -> unres x = true)) p.
+Proof.
+  intros p R. unfold reserved_free in R. apply andb_true_iff in R. destruct R as [G C].
+  apply Forall_forall. intros o Io. split; [exact (proj1 (forallb_forall _ _) G o Io)|].
+  unfold pc_of. destruct (existsb is_stack_global p) eqn:X.
+  - cbn [negb orb] in C. split; [|auto]. intros x E. subst.
+    exact (proj1 (forallb_forall _ _) C _ Io).
+  - split; [reflexivity|]. intros E. subst.
+    assert (existsb is_stack_global p = true) by (apply existsb_exists; exists OStackGlobal; auto).
+    congruence.
+Qed.
+
+Lemma run_scoped : forall p lo s, reserved_free p = true -> run_from p (fk_init lo) = Ok s ->
+  inv (pc_of p) lo s.
+Proof.
+  intros p lo s R H. eapply run_from_inv; [apply fk_init_inv|apply reserved_free_ops; exact R|exact H].
+Qed.
+
+(* indices 0,1,2,...; each interpreter starts where the previous one stopped *)
+Fixpoint seg_chain (i v : nat) (l : list seg) : Prop :=
+  match l with
+  | [] => True
+  | g :: r => sg_index g = i /\ sg_first g = v /\ seg_chain (S i) (sg_next g) r
+  end.
+Definition seg_inv (g : seg) : Prop := exists pc, inv pc (sg_first g) (sg_state g).
+
+Lemma decompile_from_spec : forall ps i v segs st,
+  Forall (fun p => reserved_free p = true) ps ->
+  cli_decompile_from i v ps = (segs, st) ->
+  seg_chain i v segs /\ Forall seg_inv segs /\
+  List.length segs <= List.length ps /\
+  (st = Exit 0 /\ List.length segs = List.length ps /\
+     Forall2 (fun g p => run_from p (fk_init (sg_first g)) = Ok (sg_state g)) segs ps
+   \/ exists e, st = Raised e /\ List.length segs < List.length ps /\
+        Forall2 (fun g p => run_from p (fk_init (sg_first g)) = Ok (sg_state g))
+                segs (firstn (List.length segs) ps)).
+Proof.
+  induction ps as [|p ps IH]; intros i v segs st F H; cbn [cli_decompile_from] in H.
+  - inversion H; subst. cbn. split; [exact Logic.I|]. split; [constructor|]. split; [lia|].
+    left. split; [reflexivity|]. split; [reflexivity|constructor].
+  - inversion F as [|? ? R F']; subst.
+    destruct (run_from p (fk_init v)) as [s|e] eqn:Rn.
+    + destruct (cli_decompile_from (S i) (ctr s) ps) as [l st'] eqn:D. inversion H; subst.
+      destruct (IH _ _ _ _ F' D) as (Ch & Fi & Le & Alt).
+      split; [cbn; auto|]. split.
+      { constructor; [|exact Fi]. exists (pc_of p). cbn [sg_first sg_state]. apply run_scoped; assumption. }
+      split; [cbn; lia|].
+      destruct Alt as [(E1 & E2 & E3)|(e & E1 & E2 & E3)]; [left|right; exists e]; cbn [List.length];
+        (split; [assumption|]); (split; [lia|]); cbn [firstn]; constructor; assumption.
+    + inversion H; subst. cbn. split; [exact Logic.I|]. split; [constructor|]. split; [lia|].
+      right. exists e. split; [reflexivity|]. split; [lia|constructor].
+Qed.
+
+(* ================= STOP binds the result, and nothing runs after it ================= *)
+Lemma pop_val_stopped : forall s e s1, pop_val s = Ok (e, s1) -> stopped s1 = stopped s.
+Proof.
+  intros s e s1 H. unfold pop_val in H. destruct (stack s) as [|[|x] r]; try discriminate.
+  inversion H; subst. reflexivity.
+Qed.
+Lemma pop_slice_stopped : forall s l s1, pop_slice s = Ok (l, s1) -> stopped s1 = stopped s.
+Proof.
+  intros s l s1 H. unfold pop_slice in H. destruct (split_mark (stack s) []) as [[a b]|]; cbn in H;
+    try discriminate. inversion H; subst. reflexivity.
+Qed.
+
+Ltac dv H := match type of H with context [pop_val ?s] =>
+   let P := fresh "P" in destruct (pop_val s) as [[? ?]|?] eqn:P; cbn [bind] in H; [|discriminate H];
+   apply pop_val_stopped in P end.
+Ltac ds H := match type of H with context [pop_slice ?s] =>
+   let P := fresh "P" in destruct (pop_slice s) as [[? ?]|?] eqn:P; cbn [bind] in H; [|discriminate H];
+   apply pop_slice_stopped in P end.
+Ltac dt H := match type of H with context [top_val ?s] =>
+   destruct (top_val s) as [?|?]; cbn [bind] in H; [|discriminate H] end.
+Ltac dm H := repeat match type of H with
+   | context [match ?x with _ => _ end] => destruct x; try discriminate H
+   end.
+
+Lemma step_stopped : forall o s s1, step o s = Ok s1 -> o <> OStop -> stopped s1 = stopped s.
+Proof.
+  intros o s s1 H NS. destruct o; try congruence; cbn [step] in H;
+    repeat (first [dv H | ds H | dt H]);
+    unfold bind_call, new_variable, alloc, emit_import, emit, push, set_node, with_stack in H;
+    dm H; inversion H; subst; cbn [stopped]; congruence.
+Qed.
+
+Lemma step_stop_body : forall s s1, step OStop s = Ok s1 ->
+  stopped s1 = true /\ exists e r, body s1 = SResult e :: r.
+Proof.
+  intros s s1 H. cbn [step] in H. destruct (pop_val s) as [[e s2]|]; cbn [bind] in H; [|discriminate].
+  inversion H; subst. cbn. eauto.
+Qed.
+
+Lemma run_from_result : forall p s s1, run_from p s = Ok s1 ->
+  (stopped s = true -> exists e r, body s = SResult e :: r) ->
+  stopped s1 = true -> exists e r, body s1 = SResult e :: r.
+Proof.
+  induction p as [|o p IH]; intros s s1 H G T; cbn [run_from] in H.
+  - inversion H; subst. auto.
+  - destruct (stopped s) eqn:St; [inversion H; subst; auto|].
+    destruct (step o s) as [s2|] eqn:S; cbn [bind] in H; [|discriminate].
+    apply (IH s2 s1 H); [|exact T]. intros T2.
+    destruct o; try (rewrite (step_stopped _ _ _ S) in T2 by discriminate; congruence).
+    apply (step_stop_body _ _ S).
+Qed.
+
+(* ================= what the invariant says about the printed program ================= *)
+Section Consequences.
+  Variable pc : string -> bool.
+  Variable lo : nat.
+
+  Lemma body_assigns : forall b c, body_wf pc lo b c ->
+    lo <= c /\ flat_map stmt_assigns (List.rev b) = seq lo (c - lo).
+  Proof.
+    induction b as [|st b IH]; intros c W.
+    - cbn in W. subst. rewrite Nat.sub_diag. split; [lia|reflexivity].
+    - cbn [List.rev]. rewrite flat_map_app. cbn [flat_map]. rewrite app_nil_r.
+      destruct st; cbn [body_wf stmt_assigns] in *.
+      + destruct W as [_ W]. destruct (IH _ W) as [L E]. rewrite E, app_nil_r. auto.
+      + destruct W as (Ec & _ & W). destruct (IH _ W) as [L E]. subst c. split; [lia|].
+        rewrite E. replace (S i - lo) with (S (i - lo)) by lia. rewrite seq_S.
+        replace (lo + (i - lo)) with i by lia. reflexivity.
+      + destruct W as [_ W]. destruct (IH _ W) as [L E]. rewrite E, app_nil_r. auto.
+      + destruct W as (_ & _ & _ & W). destruct (IH _ W) as [L E]. rewrite E, app_nil_r. auto.
+      + destruct W as [_ W]. destruct (IH _ W) as [L E]. rewrite E, app_nil_r. auto.
+  Qed.
+
+  (* the counter before / the atoms of the statement at any position *)
+  Lemma body_split : forall post st pre c, body_wf pc lo (post ++ st :: pre) c ->
+    exists c', body_wf pc lo pre c' /\ c' <= c /\
+               forall a, In a (stmt_atoms st) -> atom_ok pc lo c' a.
+  Proof.
+    induction post as [|x post IH]; intros st pre c W.
+    - cbn [app] in W. destruct st; cbn [body_wf stmt_atoms] in *.
+      + destruct W as [_ W]. exists c. split; [assumption|]. split; [lia|]. intros a [].
+      + destruct W as (Ec & He & W). exists i. split; [assumption|]. split; [lia|exact He].
+      + destruct W as [He W]. exists c. split; [assumption|]. split; [lia|exact He].
+      + destruct W as (Lj & Hk & He & W). exists c. split; [assumption|]. split; [lia|].
+        intros a [Ea|Ia]; [subst; exact Lj|]. apply in_app_or in Ia. destruct Ia; auto.
+      + destruct W as [He W]. exists c. split; [assumption|]. split; [lia|exact He].
+    - cbn [app] in W.
+      assert (G : exists c0, body_wf pc lo (post ++ st :: pre) c0 /\ c0 <= c).
+      { destruct x; cbn [body_wf] in W.
+        - destruct W as [_ W]. eauto.
+        - destruct W as (Ec & _ & W). exists i. split; [assumption|lia].
+        - destruct W as [_ W]. eauto.
+        - destruct W as (_ & _ & _ & W). eauto.
+        - destruct W as [_ W]. eauto. }
+      destruct G as (c0 & W0 & L0). destruct (IH _ _ _ W0) as (c' & A & B & C).
+      exists c'. split; [assumption|]. split; [lia|assumption].
+  Qed.
+
+  Lemma body_atoms_ok : forall b c, body_wf pc lo b c ->
+    forall st, In st b -> forall a, In a (stmt_atoms st) -> atom_ok pc lo c a.
+  Proof.
+    intros b c W st I a Ia. apply in_split in I. destruct I as (post & pre & E). subst b.
+    destruct (body_split _ _ _ _ W) as (c' & _ & L & H). eapply atom_ok_mono; [exact L|auto].
+  Qed.
+End Consequences.
+
+Lemma vars_of_in : forall l j, In j (vars_of l) <-> In (AVar j) l.
+Proof.
+  intros l j. unfold vars_of. rewrite in_flat_map. split.
+  - intros (a & Ia & Ij). destruct a; cbn in Ij; try tauto. destruct Ij as [E|[]]. subst. exact Ia.
+  - intros I. exists (AVar j). split; [exact I|left; reflexivity].
+Qed.
+
+Lemma seg_assigns_seq : forall g, seg_inv g ->
+  sg_first g <= sg_next g /\ seg_assigns g = seq (sg_first g) (sg_next g - sg_first g).
+Proof.
+  intros g (pc & I). unfold seg_assigns, seg_body, sg_next. apply (body_assigns pc). apply (i_body _ _ _ I).
+Qed.
+
+Lemma seg_reads_earlier : forall g pre st post, seg_inv g ->
+  seg_body g = pre ++ st :: post ->
+  forall j, In j (vars_of (stmt_atoms st)) -> In j (flat_map stmt_assigns pre).
+Proof.
+  intros g pre st post (pc & I) E j Ij. unfold seg_body in E.
+  assert (Eb : body (sg_state g) = List.rev post ++ st :: List.rev pre).
+  { rewrite <- (rev_involutive (body (sg_state g))), E, rev_app_distr. cbn [List.rev].
+    rewrite <- app_assoc. reflexivity. }
+  pose proof (i_body _ _ _ I) as W. rewrite Eb in W.
+  destruct (body_split _ _ _ _ _ _ W) as (c' & Wp & _ & H).
+  destruct (body_assigns _ _ _ _ Wp) as [L A]. rewrite rev_involutive in A. rewrite A.
+  apply vars_of_in in Ij. specialize (H _ Ij). cbn in H. apply in_seq. lia.
+Qed.
+
+Lemma seg_atoms_ok : forall g, seg_inv g -> exists pc,
+  forall a, In a (flat_map stmt_atoms (seg_body g) ++ heap_atoms (sg_state g)) ->
+            atom_ok pc (sg_first g) (sg_next g) a.
+Proof.
+  intros g (pc & I). exists pc. intros a Ia. apply in_app_or in Ia. destruct Ia as [Ia|Ia].
+  - apply in_flat_map in Ia. destruct Ia as (st & Is & Ia). unfold seg_body in Is.
+    apply in_rev in Is. exact (body_atoms_ok _ _ _ _ (i_body _ _ _ I) st Is a Ia).
+  - unfold heap_atoms in Ia. apply in_flat_map in Ia. destruct Ia as (n & In_ & Ia).
+    exact (proj1 (Forall_forall _ _) (i_nodes _ _ _ I) n In_ a Ia).
+Qed.
+
+Lemma seg_vars_in_range : forall g, seg_inv g ->
+  forall j, In j (vars_of (flat_map stmt_atoms (seg_body g) ++ heap_atoms (sg_state g))) ->
+            sg_first g <= j < sg_next g.
+Proof.
+  intros g Hg j Ij. destruct (seg_atoms_ok g Hg) as (pc & H). apply vars_of_in in Ij.
+  exact (H _ Ij).
+Qed.
+
+Lemma seg_reads_reserved : forall g x, seg_inv g -> In x (seg_reads g) -> is_reserved x = true ->
+  exists j, x = var_name j /\ sg_first g <= j < sg_next g.
+Proof.
+  intros g x Hg Ix R. destruct (seg_atoms_ok g Hg) as (pc & H). unfold seg_reads in Ix.
+  apply in_flat_map in Ix. destruct Ix as (a & Ia & Ix). specialize (H a Ia).
+  destruct a; cbn [atom_name atom_ok In] in Ix, H; try tauto; destruct Ix as [E|[]]; subst.
+  - exists j. split; [reflexivity|exact H].
+  - unfold unres in H. rewrite R in H. discriminate.
+Qed.
+
+Lemma seg_binds_reserved : forall g x, seg_inv g -> In x (seg_binds g) -> is_reserved x = true ->
+  (exists j, x = var_name j /\ sg_first g <= j < sg_next g) \/ x = result_name (sg_index g).
+Proof.
+  intros g x Hg Ix R. unfold seg_binds in Ix. apply in_flat_map in Ix. destruct Ix as (st & Is & Ix).
+  destruct st; cbn [stmt_binds In] in Ix; try tauto; destruct Ix as [E|[]]; subst.
+  - (* import *) exfalso. destruct Hg as (pc & I). unfold seg_body in Is. apply in_rev in Is.
+    apply in_split in Is. destruct Is as (post & pre & E). pose proof (i_body _ _ _ I) as W.
+    rewrite E in W. clear E. revert W. generalize (ctr (sg_state g)).
+    induction post as [|y post IH]; intros c W; cbn [app body_wf] in W.
+    + destruct W as [U _]. unfold unres in U. rewrite R in U. discriminate.
+    + destruct y; cbn [body_wf] in W; [destruct W as [_ W]|destruct W as (_ & _ & W)|
+        destruct W as [_ W]|destruct W as (_ & _ & _ & W)|destruct W as [_ W]]; eapply IH; exact W.
+  - left. exists i. split; [reflexivity|]. destruct (seg_assigns_seq g Hg) as [L A].
+    assert (Ii : In i (seg_assigns g)).
+    { unfold seg_assigns. apply in_flat_map. exists (SAssignV i e). split; [exact Is|left; reflexivity]. }
+    rewrite A in Ii. apply in_seq in Ii. lia.
+  - right. reflexivity.
+Qed.
+
+(* ---- across segments ---- *)
+Lemma chain_later : forall r g i v, seg_chain i v (g :: r) -> Forall seg_inv (g :: r) ->
+  forall g2, In g2 r -> sg_next g <= sg_first g2 /\ sg_index g < sg_index g2.
+Proof.
+  induction r as [|h r IH]; intros g i v C F g2 I2; [destruct I2|].
+  cbn [seg_chain] in C. destruct C as (Ei & Ev & Eh & Evh & C).
+  inversion F as [|? ? Fg Fr]; subst. inversion Fr as [|? ? Fh Fr']; subst.
+  destruct I2 as [E|I2]; [subst; lia|].
+  assert (C' : seg_chain (S (sg_index g)) (sg_next g) (h :: r)) by (cbn [seg_chain]; auto).
+  destruct (IH h _ _ C' Fr g2 I2) as [A B].
+  destruct (seg_assigns_seq h Fh) as [L _]. lia.
+Qed.
+
+Lemma chain_app : forall l1 l i v, seg_chain i v (l1 ++ l) -> exists i' v', seg_chain i' v' l.
+Proof.
+  induction l1 as [|x l1 IH]; intros l i v C; [eauto|]. cbn [app seg_chain] in C.
+  destruct C as (_ & _ & C). eauto.
+Qed.
+
+Lemma segs_ordered : forall segs i v l1 g1 l2 g2 l3,
+  seg_chain i v segs -> Forall seg_inv segs -> segs = l1 ++ g1 :: l2 ++ g2 :: l3 ->
+  sg_next g1 <= sg_first g2 /\ sg_index g1 < sg_index g2.
+Proof.
+  intros segs i v l1 g1 l2 g2 l3 C F E. subst segs.
+  destruct (chain_app _ _ _ _ C) as (i' & v' & C'). apply Forall_app in F. destruct F as [_ F].
+  apply (chain_later _ _ _ _ C' F). apply in_or_app. right. left. reflexivity.
+Qed.
+
+Lemma segs_no_reuse : forall segs i v l1 g1 l2 g2 l3,
+  seg_chain i v segs -> Forall seg_inv segs -> segs = l1 ++ g1 :: l2 ++ g2 :: l3 ->
+  forall x, In x (seg_binds g1 ++ seg_reads g1) -> In x (seg_binds g2 ++ seg_reads g2) ->
+            is_reserved x = false.
+Proof.
+  intros segs i v l1 g1 l2 g2 l3 C F E x I1 I2.
+  destruct (segs_ordered _ _ _ _ _ _ _ _ C F E) as [Lv Li].
+  assert (F1 : seg_inv g1).
+  { subst segs. apply Forall_app in F. destruct F as [_ F]. inversion F; assumption. }
+  assert (F2 : seg_inv g2).
+  { subst segs. apply Forall_app in F. destruct F as [_ F]. inversion F as [|? ? _ F']; subst.
+    apply Forall_app in F'. destruct F' as [_ F']. inversion F'; assumption. }
+  destruct (is_reserved x) eqn:R; [exfalso|reflexivity].
+  assert (A1 : (exists j, x = var_name j /\ sg_first g1 <= j < sg_next g1) \/ x = result_name (sg_index g1)).
+  { apply in_app_or in I1. destruct I1 as [I1|I1];
+      [apply seg_binds_reserved; assumption|left; apply seg_reads_reserved; assumption]. }
+  assert (A2 : (exists j, x = var_name j /\ sg_first g2 <= j < sg_next g2) \/ x = result_name (sg_index g2)).
+  { apply in_app_or in I2. destruct I2 as [I2|I2];
+      [apply seg_binds_reserved; assumption|left; apply seg_reads_reserved; assumption]. }
+  destruct A1 as [(j1 & E1 & L1)|E1]; destruct A2 as [(j2 & E2 & L2)|E2]; subst x.
+  - apply var_name_inj in E2. lia.
+  - exact (var_not_result _ _ E2).
+  - exact (var_not_result _ _ (eq_sym E2)).
+  - apply result_name_inj in E2. lia.
+Qed.
